@@ -306,7 +306,18 @@ def auditOne (cat : List ZoneCfg) (serverSize : Nat) (req : Bytes) (udp : Bool) 
   let sc := specScan cat serverSize req
   let tr := if udp then "udp" else "tcp"
   match r with
-  | .panic => [s!"C01:panic-{tr}"]
+  | .panic =>
+    -- a panic is C01's violation; it also withholds a response the other properties prescribe
+    [s!"C01:panic-{tr}"] ++
+    (if sc.respond then
+      [s!"C03:no-response-panic-{tr}"] ++
+      (match sc.verdict with
+        | .formErr => [s!"C08:no-response-panic-{tr}"]
+        | .badVers => [s!"C09:no-response-panic-{tr}"]
+        | .notImp | .refused | .servFailZone => [s!"C07:no-response-panic-{tr}"]
+        | .tsigReached => [s!"C10:no-response-panic-{tr}"]
+        | .answer => [s!"C05:no-response-panic-{tr}"])
+     else [])
   | .none => if sc.respond then [s!"C03:no-response-{tr}"] else []
   | .bytes b =>
     if !sc.respond then [s!"C03:unexpected-response-{tr}"] else
